@@ -33,15 +33,15 @@ def parse(trace):
 
 
 def afters(trace):
-    """executed events as seen by the first handler: [(iter, ts)]"""
-    out, first = [], None
+    """executed events as seen through the after-step hook: [(iter, ts)] of the handler that reported
+    most rounds (all handlers report the same on a healthy tree; C05 checks exactly that)"""
+    by = {}
     for e in trace:
         if e[0] == "after":
-            if first is None:
-                first = e[1]
-            if e[1] == first:
-                out.append((e[2], e[3]))
-    return out
+            by.setdefault(e[1], []).append((e[2], e[3]))
+    if not by:
+        return []
+    return max(by.values(), key=len)
 
 
 def completed(case, impl):
